@@ -6,6 +6,7 @@ import (
 	"fmt"
 	"net"
 	"net/netip"
+	"os"
 	"runtime"
 	"sort"
 	"strings"
@@ -139,6 +140,7 @@ type c10Transcript struct {
 	async    []string
 	retained bool
 	joined   bool
+	raw      []string // development aid (VERIF_C10_DUMP)
 }
 
 // waitNoGoroutine polls until no goroutine has one of the functions on its stack.
@@ -232,7 +234,13 @@ func c10Execute(c c10Case, shared bool) (tr c10Transcript, p interface{}, sig, s
 		if stp.K == "purge" { // purge walks a map: the order of its offline notifications is not defined
 			sort.Strings(notes)
 		}
-		syncF, asyncF := c10Frames(e.conn.Take())
+		taken := e.conn.Take()
+		if os.Getenv("VERIF_C10_DUMP") != "" {
+			for _, f := range taken {
+				tr.raw = append(tr.raw, fmt.Sprintf("step %d: %x", len(tr.steps), f.B[:min(len(f.B), 60)]))
+			}
+		}
+		syncF, asyncF := c10Frames(taken)
 		tr.async = append(tr.async, asyncF...)
 		hosts, macs, leases, routers, dnsTab := c10Snapshot(e)
 		if len(e.s.HostTable.Table) > 2 || leases != "" || routers != "" || dnsTab != "" {
@@ -241,8 +249,17 @@ func c10Execute(c c10Case, shared bool) (tr c10Transcript, p interface{}, sig, s
 		tr.steps = append(tr.steps, strings.Join([]string{"result: " + result, "notifications: " + strings.Join(notes, " ; "), "frames: " + strings.Join(syncF, " "), "hosts:\n" + hosts, "macs:\n" + macs, "leases:\n" + leases, "routers:\n" + routers, "dns:\n" + dnsTab}, "\n--\n"))
 	}
 	// asynchronous senders (forced DECLINE / RELEASE): join them, then compare what they sent as a multiset
-	tr.joined = waitNoGoroutine(300*time.Millisecond, "forceDecline", "forceRelease", "sendDeclineReleasePacket")
-	_, asyncF := c10Frames(e.conn.Take())
+	// (matched by source directory, not by function name: `go h.forceDecline(...)` runs through a compiler-made wrapper, and a
+	// goroutine that has not started yet shows only that wrapper and the place it was created at)
+	tr.joined = waitNoGoroutine(300*time.Millisecond, "/handlers/dhcp4_spoofer/")
+	taken := e.conn.Take()
+	if os.Getenv("VERIF_C10_DUMP") != "" {
+		for _, f := range taken {
+			tr.raw = append(tr.raw, fmt.Sprintf("final: %x", f.B[:min(len(f.B), 60)]))
+		}
+		tr.raw = append(tr.raw, fmt.Sprintf("joined=%v", tr.joined))
+	}
+	_, asyncF := c10Frames(taken)
 	tr.async = append(tr.async, asyncF...)
 	sort.Strings(tr.async)
 	return
@@ -317,6 +334,9 @@ func c10Run(tb drv.TB, rec *drv.Rec, sub string, c c10Case) {
 		return
 	}
 	for i := range trP.steps {
+		if os.Getenv("VERIF_C10_DUMP") != "" {
+			fmt.Fprintf(os.Stderr, "==== step %d shared:\n%s\n==== step %d private:\n%s\n", i, trS.steps[i], i, trP.steps[i])
+		}
 		if trS.steps[i] == trP.steps[i] {
 			continue
 		}
@@ -344,6 +364,9 @@ func c10Run(tb drv.TB, rec *drv.Rec, sub string, c c10Case) {
 			}
 		}
 		if same == 2 {
+			if os.Getenv("VERIF_C10_DUMP") != "" {
+				fmt.Fprintf(os.Stderr, "RAW shared:\n%s\nRAW private:\n%s\n", strings.Join(trS.raw, "\n"), strings.Join(trP.raw, "\n"))
+			}
 			rec.Violation(tb, sub, "c10-alias:async-frames", c, "asynchronously sent frames differ (reproduced 3 times):\n shared : %v\n private: %v", trS.async, trP.async)
 			return
 		}
